@@ -93,6 +93,8 @@ struct Mtx {
 int g_active = 0;
 vs_shared *g_shm = nullptr;
 const int *g_choices = nullptr;
+const int *g_tids = nullptr;
+int g_ntids = 0;
 int g_nchoices = 0, g_horizon = VS_MAXPOINTS - 1;
 Thr T[VS_MAXT];
 int g_nthr = 0;
@@ -178,6 +180,16 @@ void schedule_from(int me) {
     finish(VS_DEADLOCK, msg);
   }
   int idx = np < g_nchoices ? g_choices[np] : 0;
+  if (np < g_ntids) {
+    idx = -1;
+    for (int i = 0; i < n; i++)
+      if (list[i] == g_tids[np]) idx = i;
+    if (idx < 0) {
+      char msg[128];
+      snprintf(msg, sizeof msg, "forced thread t%d is not enabled at point %d", g_tids[np], np);
+      finish(VS_DIVERGED, msg);
+    }
+  }
   if (idx < 0 || idx >= n) finish(VS_DIVERGED, "forced choice index not available at this point");
   int chosen = list[idx];
   vs_point &p = g_shm->points[np];
@@ -251,6 +263,8 @@ void vs_begin(vs_shared *shm, const int *choices, int nchoices, int horizon) {
   g_shm = shm;
   g_choices = choices;
   g_nchoices = nchoices;
+  g_tids = nullptr;
+  g_ntids = 0;
   g_horizon = horizon > 0 ? horizon : VS_MAXPOINTS - 1;
   memset(T, 0, sizeof T);
   g_nthr = 1;
@@ -264,6 +278,12 @@ void vs_begin(vs_shared *shm, const int *choices, int nchoices, int horizon) {
   shm->nevents = 0;
   shm->verdict = VS_RUNNING;
   g_active = 1;
+}
+
+void vs_begin_tids(vs_shared *shm, const int *tids, int ntids, int horizon) {
+  vs_begin(shm, nullptr, 0, horizon);
+  g_tids = tids;
+  g_ntids = ntids;
 }
 
 void vs_end(void) {
